@@ -787,6 +787,15 @@ impl Check for C14 {
         for k in 0..3 {
             out.push(json!({"envarg": k}));
         }
+        // the first item's long name is a prefix of a later item's (`--num`, `--num-threads`)
+        for k1 in [Kind::ArgReq, Kind::ArgOpt, Kind::Switch] {
+            for k2 in [Kind::Switch, Kind::ArgOpt] {
+                let a = Named { names: Names::long("num"), kind: k1, hidden: false, ty: Ty::U32, adjacent: false, guarded: false };
+                let b = Named { names: Names::long("num-threads"), kind: k2, hidden: false, ty: Ty::Os, adjacent: false, guarded: false };
+                let v = Named { names: Names::long("verbose"), kind: Kind::Switch, hidden: false, ty: Ty::Os, adjacent: false, guarded: false };
+                out.push(serde_json::to_value(Unit { level: fam::leaf(vec![a, v, b], Tail::None), len: tier.pick(2, 3), completers: vec![], fallback_with: false, decor: 0, hidden_cmds: vec![], completer_outer: false, shell_deco: false, untitled_groups: 0 }).unwrap());
+            }
+        }
         out.push(json!({"adjgroup": false}));
         out.push(json!({"adjgroup": true}));
         out.push(json!({"altpos": false}));
